@@ -89,6 +89,21 @@ CLAIMED = {
         '(b) domain safety over the reals: on every explored path of the listed models and of the ellipse formula no division has a divisor that can be zero and no sqrt/acos/log argument leaves its domain, for all parameters in the schema domain.',
    note=TB + 'NOT covered: finiteness under rounding/overflow; the slab kernel and the Bezier Newton search (150x10 iterations of double arithmetic: terminate by constant loop bounds but no solver verdict on their values); degenerate geographic locations that only matter through those kernels; whole-world queries.',
    technique='symbolic execution of clang LLVM IR + z3: abstract-arithmetic FP mode for safety/termination, QF_NRA for divisor/domain queries', design='4/C13'),
+ 'C14': dict(
+   text='Schedules are discharged by a frame argument instead of being explored: (1) the real ThreadPool::parallel_for of gwb-grid (main.cc compiled unchanged, std::thread mapped to a slice recorder) is executed symbolically for thread counts 1..16 (1..40 thorough) against a symbolic node range: the slices handed to the threads are non-empty, pairwise disjoint, contiguous and cover exactly the range, every started thread is joined; '
+        '(2) from the Clang AST of main, both node lambdas are shown (z3) to write only slots i, 3i..3i+2 of their own node and lambda-local variables, so two nodes never write the same element; (3) the query path (World::properties; the feature/model queries checked under C02/C05) writes only fresh memory and the caller\'s output vector. Together: no interleaving has a race and every node gets the single-thread value.',
+   note=TB + 'no schedule is ever executed; purity is established for World::properties with stub features and, inside the C02/C05 harnesses, for the area features and the models of the C05 table - a model outside that table (e.g. slab water-content, mass-conserving) is NOT covered; the VTU writer is outside; random models are excluded by the statement.',
+   technique='symbolic execution of clang LLVM IR + z3 (bit-vector slice arithmetic), Clang-AST index arithmetic + z3 (QF_LIA), write-set recording', design='4/C14'),
+ 'C17': dict(
+   text='The index arithmetic of gwb-dat\'s main() is extracted from the Clang AST (header token emission, row value emission, request list construction, loops) and compared by z3 for ALL composition counts, grain-composition counts and grain counts with the slot the library assigns to the property each header token names (layout widths proved for the real World::properties under C01): '
+        'inputs are echoed, every column under T/vx../c<n>/gs/gm[r:c]/tag prints the right slot and stays inside the vector, header and rows have the same columns, in 2D and 3D. Two genuine defects are listed as known findings.',
+   note=TB.replace('my LLVM-IR semantics (engine/*.py), z3;', 'engine/astx.py (a thin reading of the Clang AST: only the statement/expression shapes it knows; anything else is an encoding error), z3;') + 'NOT covered: option parsing from "#" lines, tokenisation, number formatting, error reporting for malformed rows, the convert-spherical arithmetic (iostream/string code).',
+   technique='Clang AST (JSON) -> integer index terms -> z3 (QF_NIA) equivalence with the proved library layout', design='4/C17'),
+ 'C18': dict(
+   text='(1) filter_vtu_mesh (real code, main.cc compiled unchanged) executed symbolically on small 2D meshes with arbitrary tags, include flags and data: output cells are exactly the cells whose highest node tag is >= 0 and included, in order; every output node carries the coordinates and all data values (3 for velocity) of its source node; connectivity, offsets and types are consistent. '
+        '(2) from the Clang AST of main: each data set (Temperature, velocity, Tag, Composition c) receives, at node slot i, the library value of the property its name announces for that node\'s own query, for every composition count.',
+   note=TB + 'NOT covered: grid generation for box/chunk/annulus/sphere (about 900 lines of trigonometry and file I/O inside main), cell counts, Depth values, VTU serialisation (vtu11), dim 3 filtering (8 nodes per cell).',
+   technique='symbolic execution of clang LLVM IR + z3 for the filter; Clang-AST index arithmetic + z3 for the node values', design='4/C18'),
 }
 NA_DEFAULT = 'check not built yet (work in progress; see DESIGN.md section 4 for the planned obligations)'
 NA = {
